@@ -6,7 +6,7 @@ elem ∈ v|i64|f|str|u8 (selects the size-class table of the growth policy); fla
 ops (object ids are creation order, values are `u` undef, `n` nil or an integer; lists `,`-separated, `-` = empty;
 creation ops may carry an implementation tag `new:i64` which the model ignores):
 `new C` `lit C xs` `wlen N` `push O xs` `get O I` `set O I V` `at O I` `rme O I` `rm O I` `grow O N` `exp O N`
-`apat O I V` `cat A B` `rep A N|big` `sl A F T` `cp A` `cl A C` `vrem O V` `veq A B` `vcon O V` `iter O K` `len O`
+`apat O I V` `cat A B` `rep A N|big` `sl A F T` `cp A` `cl A C` `vsl O KIND A B` `vrem O V` `veq A B` `vcon O V` `iter O K` `len O`
 answer: `ok a1|changes ; a2|changes …` — after each op the objects whose (elements, capacity) changed. -/
 namespace Driver.Dom.Seq
 open Elk.Seq Driver
@@ -48,6 +48,19 @@ def parseOp (native : Bool) (s : String) : Option Op :=
     | "sl", [a, f, t] => do pure (.sl (← parseNat? a) (← parseInt? f) (← parseInt? t))
     | "cp", [a] => do pure (.cp (← parseNat? a))
     | "cl", [a, c] => do pure (.cl (← parseNat? a) (← parseInt? c))
+    | "vsl", [o, k, a, b] => do
+        -- kinds: cc `a...b`, oc `a<..b`, co `a..<b`, oo `a<.<b`, bo `..<b`, bc `...b`, eo `a<..`, ec `a...` (`_` = missing)
+        let o ← parseNat? o
+        match k with
+        | "cc" => pure (.vsl o (.closed (← parseInt? a) (← parseInt? b)))
+        | "oc" => pure (.vsl o (.leftOpen (← parseInt? a) (← parseInt? b)))
+        | "co" => pure (.vsl o (.rightOpen (← parseInt? a) (← parseInt? b)))
+        | "oo" => pure (.vsl o (.open (← parseInt? a) (← parseInt? b)))
+        | "bo" => pure (.vsl o (.beginlessOpen (← parseInt? b)))
+        | "bc" => pure (.vsl o (.beginlessClosed (← parseInt? b)))
+        | "eo" => pure (.vsl o (.endlessOpen (← parseInt? a)))
+        | "ec" => pure (.vsl o (.endlessClosed (← parseInt? a)))
+        | _ => none
     | "vrem", [o, v] => do pure (.vrem (← parseNat? o) (← parseVal v))
     | "veq", [a, b] => do pure (.veq (← parseNat? a) (← parseNat? b))
     | "vcon", [o, v] => do pure (.vcon (← parseNat? o) (← parseVal v))
